@@ -236,7 +236,9 @@ type oracle struct {
 // instance. It returns the findings and the record to append to the history.
 func (o *oracle) check(post bool, topic string, wire []byte, receivedAt time.Time, hist []accepted, topicObservationOnly bool) ([]finding, *accepted) {
 	var fs []finding
-	add := func(kind, rule, format string, a ...any) { fs = append(fs, finding{kind: kind, rule: rule, detail: fmt.Sprintf(format, a...)}) }
+	add := func(kind, rule, format string, a ...any) {
+		fs = append(fs, finding{kind: kind, rule: rule, detail: fmt.Sprintf(format, a...)})
+	}
 	p := parseWire(wire, post)
 	if !p.ok {
 		add("accepted-undecodable", "decodable", "accepted although the oracle cannot parse it: %s", p.why)
